@@ -59,7 +59,9 @@ func owTime(r *RNG) time.Time {
 }
 
 func owETag(r *RNG) string {
-	return r.Pick([]string{"", "e1", "W/weak", "with \"quote\"", "sp ace", "é", "back\\slash", "a,b", "\t", "'single'", "`back`", "ctl\x01", "\x7f"})
+	return r.Pick([]string{"", "e1", "W/weak", "with \"quote\"", "sp ace", "é", "back\\slash", "a,b", "\t", "'single'", "`back`", "ctl\x01", "\x7f",
+		// tags that already look like a quoted string, or like half of one
+		"\"abc\"", "\"\"", "\"W/\"x\"\"", "\"tag\\\"", "\"", "W/\"w\""})
 }
 
 func encodeIcal(cal *ical.Calendar) string {
@@ -402,6 +404,10 @@ func emitObjMget(o *Out, r *RNG, card bool) {
 		case 0:
 			code := r.Pick2(404, 403, 410, 423, 500, 507)
 			getErr[p] = internal.HTTPErrorf(code, "refused")
+			if r.Chance(40) {
+				// the backend's storage layer wrapped it: the status is the same
+				getErr[p] = fmt.Errorf("storage: %w", getErr[p])
+			}
 			first[p] = itoa(code)
 		case 1:
 			getErr[p] = fmt.Errorf("plain backend failure")
